@@ -48,6 +48,26 @@ theorem chunking_prefix (limit : Nat) (data : Bytes) (cuts : List Nat) :
   obtain ⟨k, hk, he⟩ := readUpToAux_prefix limit cuts [] data
   exact ⟨k, by simpa using hk, by simpa [readUpTo] using he⟩
 
+/-- (S9) **an I/O error never produces a wrong value**: when the reader's `fail`-th `read` call
+    returns an error, `read_request` / `read_response` either fail or — that call is never made —
+    return exactly what they return over the failure-free reader (so every statement below carries
+    over: a value read is the value written) -/
+theorem io_error_request (limit : Nat) (data : Bytes) (cuts : List Nat) (fail : Nat) :
+    readRequestFail limit data cuts fail = none ∨
+    readRequestFail limit data cuts fail = readRequest limit data cuts := by
+  unfold readRequestFail readUpToFail readRequest readUpTo
+  rcases readUpToFailAux_none_or limit fail cuts 0 [] data with h | h
+  · left; simp [h]
+  · right; simp [h]
+
+theorem io_error_responses (limit : Nat) (data : Bytes) (cuts : List Nat) (fail : Nat) :
+    readResponsesFail limit data cuts fail = none ∨
+    readResponsesFail limit data cuts fail = readResponses limit data cuts := by
+  unfold readResponsesFail readUpToFail readResponses readResponsesOf readUpTo
+  rcases readUpToFailAux_none_or limit fail cuts 0 [] data with h | h
+  · left; simp [h]
+  · right; simp [h]
+
 /-- **any request that fits the limit round-trips under any chunking** -/
 theorem request_roundtrip (r : HeaderRequest) (hv : ValidReq r) (cuts : List Nat) (hc : ∀ c ∈ cuts, 0 < c) :
     specRoundTrip r (decide ((writeRequest r).length ≤ 1024))
@@ -298,5 +318,13 @@ example : ValidReq ⟨64, .hash (List.replicate 32 7)⟩ ∧ ValidResp ⟨[1, 2,
   refine ⟨⟨by decide, by simp⟩, ⟨by simp, by decide, by decide⟩, ⟨by simp, by decide, by decide⟩⟩
 example : readResponses 100 ((writeResponses [⟨[9], 1⟩, ⟨[8], 2⟩]).take 7) [1, 2] = some [⟨[9], 1⟩] := by decide
 example : respFrameLens [⟨[9], 1⟩, ⟨[8], 2⟩] = [6, 6] ∧ completeCount [6, 6] 7 = 1 ∧ completeCount [6, 6] 5 = 0 := by decide
+
+/-- (S9) the error in the middle of a frame is an error; after the frame was read completely and the
+    buffer… is not full, the read that would see EOF fails: still an error; a failing call that is
+    never made (buffer full after 2 bytes) changes nothing -/
+example : readRequestFail 1024 (writeRequest ⟨7, .origin 5⟩) [2, 1] 1 = none := by decide
+example : readRequestFail 1024 (writeRequest ⟨7, .origin 5⟩) [] 1 = none := by decide
+example : readRequestFail 1024 (writeRequest ⟨7, .origin 5⟩) [] 2 = some ⟨7, .origin 5⟩ := by decide
+example : readUpToFail 2 [1, 2, 3] [2] 1 = some [1, 2] := by decide
 
 end Lumina.Props.C30
